@@ -79,6 +79,10 @@ def _item(s, i):
                 raise Reject("modifier without enough operands")
             i = _item(s, i)
         return i
+    if c == "1":
+        while i < n and s[i] == "1":
+            i += 1  # adjacent digits are ONE number token
+        return i
     if c in ELEMENTS:
         return i + 1
     if c in OPEN:
